@@ -452,7 +452,7 @@ pub struct Obs {
     pub probes: BTreeMap<(String, String), (Status, Option<String>)>,
 }
 
-#[derive(Clone, Debug)]
+#[derive(Clone, Debug, Serialize, Deserialize)]
 pub struct Viol {
     pub clause: String,
     pub stmt: usize,
@@ -862,6 +862,8 @@ pub fn execute(sc: &Scenario) -> Exec {
         }
         Exec { outcomes, violation: model.violation.clone(), hash: model.history_hash(), stats: model.stats.clone(), clock_advance_ns: 0 }
     });
+    // profiling statistics are a process-global vector that grows with every call: drop them
+    blots_core::functions::clear_function_call_stats();
     ex.clock_advance_ns = seam.clock_advance_ns;
     ex.stats.add("clock_reads", seam.clock_reads);
     ex
@@ -1203,7 +1205,7 @@ pub fn fixed_corpus() -> Vec<(String, Scenario)> {
 // Batch: sessions x enumerated faults
 // ---------------------------------------------------------------------------------------
 
-#[derive(Default)]
+#[derive(Default, Serialize, Deserialize)]
 pub struct Batch {
     pub c: Counters,
     pub violations: Vec<(u64, Scenario, Viol, u64)>, // (run, scenario, violation, hash)
@@ -1336,7 +1338,7 @@ pub fn main_batch(tier: &str, sessions: u64) -> i32 {
     let t0 = crate::seams::real_monotonic_ns();
     println!("VERIF_SEED={} engine=c03 tier={} sessions={} workers={}", seed, tier, sessions, workers());
     let keep = std::env::var("VERIF_HASHES").is_ok();
-    let agg: Batch = run_pool(sessions, workers(), move |i, a: &mut Batch| run_one(seed, i, a, keep));
+    let agg: Batch = run_sharded("c03", sessions, move |idx, w| run_indices(idx, w, move |i, a: &mut Batch| run_one(seed, i, a, keep)));
     let mut viols = agg.violations;
     viols.sort_by_key(|v| v.0);
     // fixed corpus first (run index u64::MAX - k so it never collides with sampled runs)
@@ -1440,4 +1442,11 @@ pub fn main_batch(tier: &str, sessions: u64) -> i32 {
         println!("C03 OK");
     }
     code
+}
+
+pub fn shard_main(n: u64, k: u64, s: u64, out: &str) {
+    let seed = verif_seed();
+    let keep = std::env::var("VERIF_HASHES").is_ok();
+    let a: Batch = run_indices(shard_indices(n, k, s), workers(), move |i, a: &mut Batch| run_one(seed, i, a, keep));
+    write_shard_result(out, &a);
 }
